@@ -140,6 +140,13 @@ def build(case):
         with NoTracing():
             # every path starts from functions that have never been instrumented (no cached code variants):
             # what a history compiles for the first time must not depend on the paths explored before it
+            import sys as _sys
+
+            for mname, m_ in list(_sys.modules.items()):
+                if mname == "ptera" or mname.startswith("ptera."):
+                    for obj in list(vars(m_).values()):
+                        if callable(getattr(obj, "cache_clear", None)):
+                            obj.cache_clear()  # memo tables (functools caches) must not carry one history into the next
             for fn_ in [gf(mod) for _t, gf, _c, _o in PLACEMENTS.values()] + [mod.make]:
                 st_ = getattr(fn_, "__ptera_stack__", None)
                 if st_ is not None and st_.instrument_count == 0:
